@@ -19,8 +19,11 @@ func (x *Exec) calleeNames(c *ssa.CallCommon) []string {
 		if fn, ok := c.Method.Type().(*types.Signature); ok && fn.Recv() != nil {
 			out = append(out, "invoke "+typeKey(fn.Recv().Type())+"."+c.Method.Name())
 		}
-		// short form with package name only
+		// short form with package name only, and relative to the current package
 		out = append(out, "invoke "+shortType(rt)+"."+c.Method.Name())
+		if x.fn != nil && x.fn.Pkg != nil {
+			out = append(out, "invoke "+types.TypeString(rt, types.RelativeTo(x.fn.Pkg.Pkg))+"."+c.Method.Name())
+		}
 		return out
 	}
 	switch f := c.Value.(type) {
@@ -430,24 +433,24 @@ func (x *Exec) doCall(st *State, ins ssa.Instruction, c *ssa.CallCommon, d *defe
 		}
 		env := x.newEnv(st)
 		x.bindEventArgs(env, ev, args, rets)
-		// all right-hand sides are evaluated in the state before any assignment of this event
-		type upd struct {
-			name string
-			v    Value
-		}
-		var ups []upd
-		for k, cl := range ev.Asserts {
-			t, err := env.evalBool(cl.Expr)
-			if err != nil {
-				panic(fmt.Sprintf("%s:%d: on call assert: %v", cl.File, cl.Line, err))
+		// statements run in the order written; later ones see earlier assignments
+		nAssert := 0
+		for _, stmt := range ev.Stmts {
+			if stmt.IsAssert {
+				cl := stmt.C
+				t, err := env.evalBool(cl.Expr)
+				if err != nil {
+					panic(fmt.Sprintf("%s:%d: on call assert: %v", cl.File, cl.Line, err))
+				}
+				label := cl.Label
+				if label == "" {
+					label = fmt.Sprintf("%s#%d.%d", ev.Pattern, ev.Ordinal, nAssert)
+				}
+				nAssert++
+				x.oblige(st, "after", label, t, ins.Pos(), cl.Expr)
+				continue
 			}
-			label := cl.Label
-			if label == "" {
-				label = fmt.Sprintf("%s#%d.%d", ev.Pattern, ev.Ordinal, k)
-			}
-			x.oblige(st, "after", label, t, ins.Pos(), cl.Expr)
-		}
-		for _, a := range ev.Assigns {
+			a := stmt.A
 			old, ok := st.ghost[a.Var]
 			if !ok {
 				panic(fmt.Sprintf("%s: event assigns undeclared ghost %q", x.funcName(), a.Var))
@@ -456,13 +459,10 @@ func (x *Exec) doCall(st *State, ins ssa.Instruction, c *ssa.CallCommon, d *defe
 			if err != nil {
 				panic(fmt.Sprintf("%s: event %s: %s = %s: %v", x.funcName(), ev.Pattern, a.Var, a.Expr, err))
 			}
-			ups = append(ups, upd{a.Var, coerce(nv, old.T)})
-			// sequential semantics within one event: later assignments see earlier ones
 			st.ghost[a.Var] = coerce(nv, old.T)
 			env = x.newEnv(st)
 			x.bindEventArgs(env, ev, args, rets)
 		}
-		_ = ups
 	}
 	return res
 }
